@@ -117,11 +117,11 @@ func (sm *ShardManager) cleanupRoutine(ls *loadedShard, backupFrequency, backupC
 		case <-timer.C:
 			sm.logger.Debug().Str("shardDir", shardDir).Msg("Unloading shard")
 			verifPause("cleanup:timer-fired", shardDir)
-			ls.mu.Lock()
+			ls.mu.Lock() // we commit to exiting the cleanup goroutine here
 			verifPause("cleanup:locked", shardDir)
-			defer ls.mu.Unlock() // we commit to exiting the cleanup goroutine here
 			if ls.shard == nil {
 				sm.logger.Debug().Str("shardDir", shardDir).Msg("Shard already unloaded")
+				ls.mu.Unlock()
 				return
 			}
 			// ---------------------------
@@ -147,9 +147,17 @@ func (sm *ShardManager) cleanupRoutine(ls *loadedShard, backupFrequency, backupC
 			// is closed in case they are waiting on the lock
 			sm.logger.Debug().Str("shardDir", shardDir).Msg("Removing loaded shard")
 			ls.shard = nil
+			// The shard lock has to be released before taking the store lock.
+			// Deleting a collection takes them in the opposite order (store
+			// lock, then shard lock) and the two would deadlock.
+			ls.mu.Unlock()
 			verifPause("cleanup:before-store-lock", shardDir)
 			sm.shardLock.Lock()
-			delete(sm.shardStore, shardDir)
+			// Only remove our own entry, the shard may have been deleted and
+			// loaded again under the same path in the meantime.
+			if sm.shardStore[shardDir] == ls {
+				delete(sm.shardStore, shardDir)
+			}
 			sm.shardLock.Unlock()
 			// ---------------------------
 			return
